@@ -552,7 +552,7 @@ def name_of(desc):
 
 
 class Info:
-    __slots__ = ("desc", "op", "qubits", "shape", "k", "U", "U_exc", "_ks", "_ks_done", "embeds")
+    __slots__ = ("desc", "op", "qubits", "shape", "k", "U", "U_exc", "_ks", "_ks_done", "embeds", "_stab")
 
     def __init__(self, desc):
         self.desc = desc
@@ -568,7 +568,14 @@ class Info:
             self.U_exc = f"{type(e).__name__}: {e}"
         self._ks_done = False
         self._ks = None
+        self._stab = None
         self.embeds = {}
+
+    @property
+    def stab(self):
+        if self._stab is None:
+            self._stab = bool(self.U is not None and all(d == 2 for d in self.shape) and cirq.has_stabilizer_effect(self.op))
+        return self._stab
 
     @property
     def ks(self):
@@ -1388,6 +1395,9 @@ def run_act_on(case):
     pos = [order.index(q) for q in inf.qubits]
     where = f"act_on({sim}, qubits order={order})"
     if sim in ("ch", "tab"):
+        if not inf.stab:
+            # decided at run time so that the case list does not depend on the seed-selected parameter values
+            return Res(skipped=True, nontrivial=False, counters={"not_stabilizer": 1})
         b0, prep_ops = clifford_prep(order, prep)
         n = len(order)
         psi = np.zeros(D, dtype=np.complex128)
@@ -1495,7 +1505,7 @@ def act_on_cases(tier, descs):
         orders = register_orders(inf.k + 1)
         if tier == "quick" and depth == 2:
             orders = orders[:2] + orders[-1:]
-        stab = inf.U is not None and all(d == 2 for d in inf.shape) and cirq.has_stabilizer_effect(inf.op)
+        stab = inf.U is not None and all(d == 2 for d in inf.shape)  # whether it is Clifford is decided at run time
         for oi in range(len(orders)):
             if oi >= len(register_orders(inf.k + 1)):
                 break
